@@ -200,10 +200,43 @@ def analyse(repo, chk):
                       model=None if ok_ret and stores and not rebinds else {"returns": [ast.unparse(r) for r in rets][:3]})
 
 
+# calls that change process-wide interpreter / library state (numpy error mode, print options, RNG seeds, warning filters,
+# recursion limit, environment, locale, decimal context): an evaluation elsewhere would then depend on them
+GLOBAL_MUTATORS = {"seterr", "seterrcall", "errstate", "set_printoptions", "seed", "set_state", "simplefilter", "filterwarnings",
+                   "setrecursionlimit", "setlocale", "setcontext", "putenv", "setswitchinterval", "set_string_function",
+                   "setbufsize", "default_rng"}
+
+
+def global_state_obligations(repo, chk):
+    """frame of EVERY function of the benchmark modules (constructors and generators included): no process-wide state"""
+    for rel, mi in sorted(repo.modules.items()):
+        if not rel.startswith("iOpt/problems/"):
+            continue
+        bad = []
+        for n in ast.walk(mi.tree):
+            if isinstance(n, ast.Call):
+                f = n.func
+                name = f.attr if isinstance(f, ast.Attribute) else getattr(f, "id", "")
+                if name in GLOBAL_MUTATORS and not (name == "seed" and isinstance(f, ast.Attribute) and isinstance(f.value, ast.Name)
+                                                    and f.value.id == "self"):
+                    bad.append("line %d: %s" % (n.lineno, ast.unparse(f)))
+            if isinstance(n, (ast.Subscript, ast.Attribute)) and isinstance(getattr(n, "ctx", None), ast.Store):
+                root = n
+                while isinstance(root, (ast.Subscript, ast.Attribute)):
+                    root = root.value
+                if isinstance(root, ast.Name) and root.id in ("os", "sys", "np", "numpy", "math", "warnings"):
+                    bad.append("line %d: store into %s" % (n.lineno, ast.unparse(n)[:60]))
+        chk.add_lemma("frame:process-wide-state:%s" % rel, "proved" if not bad else "refuted", "effect-analysis", 0.0,
+                      clause="no function of %s (constructors and generators included) changes process-wide interpreter / "
+                             "numpy state (error mode, RNG seed, print options, warning filters, environment)" % rel,
+                      func=rel, model=None if not bad else {"sites": bad[:8]})
+
+
 def run(tier, seed):
     chk = runner.Check(PID, tier, seed)
     repo = Repo()
     analyse(repo, chk)
+    global_state_obligations(repo, chk)
     chk.trusted += ["own syntactic write-effect analysis (props/c15.py): conservative - every store whose target is not a local, "
                     "the supplied holder's value or an object allocated in the same call is reported"]
     chk.assumptions += [
